@@ -102,7 +102,18 @@ MCInit == Init /\ hist = <<>> /\ last = [op |-> "none"]
 (* state) and every distinct state once, with the path that reaches it (EmitState is listed as *)
 (* an invariant: TLC evaluates invariants exactly once per distinct state).                    *)
 EmitEdge(e) == (Emit /\ hist = <<>> /\ cat = <<>>) => PrintT("EVENT " \o ToJson(e))
-EmitState   == Emit => PrintT("STATE " \o ToJson([hist |-> hist]))
+\* the corner that a selection of states is steered by: under an index on x, a document that lacks x and one that
+\* holds nil there share a key (2: the one lacking x has the smaller id, so it comes first in the index; 1: the other way)
+NilCornerRank ==
+    IF \E c \in DOMAIN cat : FX \in cat[c].idx /\
+          \E i, j \in DOMAIN cat[c].docs : i # j /\ ~Has(cat[c].docs[i], FX) /\ Get(cat[c].docs[j], FX) = Nil
+              /\ Has(cat[c].docs[j], FX) /\ BytesCmp(i, j) < 0
+    THEN 2
+    ELSE IF \E c \in DOMAIN cat : FX \in cat[c].idx /\
+          \E i, j \in DOMAIN cat[c].docs : i # j /\ ~Has(cat[c].docs[i], FX) /\ Get(cat[c].docs[j], FX) = Nil
+              /\ Has(cat[c].docs[j], FX)
+    THEN 1 ELSE 0
+EmitState   == Emit => PrintT("STATE " \o ToJson([hist |-> hist, corner |-> NilCornerRank]))
 
 \* admissible hints for e in the current state
 HintsFor(e) ==
